@@ -113,7 +113,7 @@ def c01_case(draw, tier):
     pc = draw(gen.problem_case(max_shr=6 if not big else 8, max_w=4 if not big else 5, max_props=4 if not big else 5, max_arity=4 if not big else 5, max_points=6000 if not big else 60000))
     cfg = draw(gen.config(pc))
     nv = len(pc["idx"])
-    kind = draw(st.sampled_from(["find_all", "solve_all", "iter", "prefix", "min", "max", "mp_enum", "mp_min", "mp_max", "again"]))
+    kind = draw(st.sampled_from(["find_all", "solve_all", "iter", "prefix", "min", "max", "mp_enum", "mp_min", "mp_max", "again", "after"]))
     case = {"problem": pc, "config": cfg}
     if draw(st.integers(0, 2)) == 0 and len(pc["props"]) > 1:
         case["order"] = list(draw(st.permutations(list(range(len(pc["props"]))))))
@@ -121,6 +121,13 @@ def c01_case(draw, tier):
         case["op"] = ["prefix", draw(st.integers(1, 4))]
     elif kind in ("min", "max"):
         case["op"] = [kind, draw(st.integers(0, nv - 1))]
+    elif kind == "after":
+        # any complete search, then another one on the same solver object; the vectors of the second are judged
+        def one():
+            k2 = draw(st.sampled_from(["find_all", "iter", "solve_all", "min", "max"]))
+            return [k2, draw(st.integers(0, nv - 1))] if k2 in ("min", "max") else [k2]
+
+        case["op"] = ["after", one(), one()]
     elif kind.startswith("mp_"):
         v = draw(st.integers(0, nv - 1))
         d = pc["shr"][pc["idx"][v]]
